@@ -2,6 +2,8 @@ package storage
 
 import (
 	"encoding/binary"
+	"fmt"
+	"os"
 	"path/filepath"
 
 	"github.com/hydraide/hydraide/app/core/hydra/swamp/beacon"
@@ -142,3 +144,52 @@ func contentOf(data []byte) []byte {
 	}
 	return v
 }
+
+const guardBodyAuth = guard.BodyAuthID
+
+// loadAllT is loadAll that also hands back the loaded treasure objects (they carry the file pointer).
+func loadAllT(dir string, cfg ChronCfg, into map[string]treasureT) (map[string][]byte, chronicler.Chronicler) {
+	c := newChron(dir, cfg)
+	b := beacon.New()
+	c.Load(b)
+	out := map[string][]byte{}
+	for k := range into {
+		delete(into, k)
+	}
+	for k, t := range b.GetAll() {
+		v, err := t.GetContentByteArray()
+		if err != nil {
+			v = nil
+		}
+		out[k] = append([]byte(nil), v...)
+		into[k] = t
+	}
+	return out, c
+}
+
+func fileSize(p string) int64 {
+	fi, err := os.Stat(p)
+	if err != nil {
+		return -1
+	}
+	return fi.Size()
+}
+
+func diffKeys(got, want map[string][]byte) string {
+	for k := range got {
+		if _, ok := want[k]; !ok {
+			return fmt.Sprintf("unexpected key %s", shortKey(k))
+		}
+	}
+	for k, v := range want {
+		g, ok := got[k]
+		if !ok {
+			return fmt.Sprintf("missing key %s", shortKey(k))
+		}
+		if string(g) != string(v) {
+			return fmt.Sprintf("key %s has another version", shortKey(k))
+		}
+	}
+	return ""
+}
+
